@@ -14,7 +14,9 @@
 (***************************************************************************)
 EXTENDS Integers, Sequences, FiniteSets, TLC, Json, Frac
 
-CONSTANTS NrSet, NtSet, Sp, R0Set, PaSet, EmitTables
+CONSTANTS NrSet, NtSet, Sp, R0Set, PaSet, NcSet,
+          Period,      \* radial spacings repeat with this period (0 = arbitrary): keeps larger grids enumerable
+          EmitTables
 
 VARIABLES g, A     \* A: the matrix rows of the instance, computed once per state
 vars == <<g, A>>
@@ -132,9 +134,10 @@ ExtrapolatedLineKinds == \A l \in Lines : (\E n \in NodesOf(l) : CoarseNode(n)) 
 (* -------------------------------- instances ------------------------------ *)
 Double(sp) == [i \in 1..(2 * Len(sp)) |-> sp[((i - 1) % Len(sp)) + 1]]
 Init == /\ \E nr \in NrSet, nt \in NtSet :
-          \E h \in [1..(nr - 1) -> Sp], kh \in [1..(nt \div 2) -> Sp], nc \in 0..nr, r0 \in R0Set, dir \in BOOLEAN,
+          \E h \in [1..(nr - 1) -> Sp], kh \in [1..(nt \div 2) -> Sp], nc \in NcSet \cap (0..nr), r0 \in R0Set, dir \in BOOLEAN,
              pa \in PaSet :
-             g = [nr |-> nr, nt |-> nt, nc |-> nc, h |-> h, k |-> Double(kh), r0 |-> r0, dir |-> dir, pa |-> pa]
+             /\ (Period > 0 => \A i \in 1..(nr - 1 - Period) : h[i] = h[i + Period])
+             /\ g = [nr |-> nr, nt |-> nt, nc |-> nc, h |-> h, k |-> Double(kh), r0 |-> r0, dir |-> dir, pa |-> pa]
         /\ A = [c \in Nodes |-> RowOf(c)]
 Next == UNCHANGED vars
 Spec == Init /\ [][Next]_vars
